@@ -14,8 +14,8 @@ LEVEL_TEXT = ("Theorems (Coq, over the reals, for an arbitrary objective functio
               "a bracket end that is a zero is returned as is; no sign change exits; NaN at an end exits (abstract instance); linear functions "
               "are solved exactly by the first Ridder point; ACCURACY at full strength: every returned x is an exact zero of f, or an end of a "
               "bracket [u,v] with f(u)f(v)<0 and v-u < acc, or (iteration-limit return, 2200 iterations) an end of such a bracket of width <= 2^-2200 of the original; "
-              "with the IVT, a continuous f has a zero within acc (resp. 2^-2200 of the width) of x; Ridder's point lies strictly inside the bracket, so the clamp the code applies to it is the identity in exact arithmetic. Not theorems: statements about IEEE rounding "
-              "(on doubles the clamp is active when rounding pushes Ridder's point past a bracket end, and function values below ~1e-150 or above ~1e150 make the products f1*f2, f3*f3 leave the double range: known finding K-C02-2): covered by running the extracted "
+              "with the IVT, a continuous f has a zero within acc (resp. 2^-2200 of the width) of x; Ridder's point lies strictly inside the bracket, so the clamp the code applies to it is the identity in exact arithmetic; the end test Sign(fl)*Sign(fr) >= 0 is fl*fr >= 0 and the scaled step (function values divided by the largest of the three magnitudes) is Ridder's step (step_eq). Not theorems: statements about IEEE rounding "
+              "(on doubles the clamp is active when rounding pushes Ridder's point past a bracket end; function values from 1e-300 to 1e300, brackets wider than the largest double and midpoints that are exact roots are generated): covered by running the extracted "
               "model against the C++ code on every run (result, warning flag, full evaluation trace, bit for bit) and by evaluating every clause on "
               "the implementation's output (S4).")
 LEVEL_NOTE = ("Coq 8.16.1 kernel; standard-library real-number axioms (listed in the evidence); nan_end_exits is axiom-free. Hand-written model tied by "
@@ -237,6 +237,28 @@ def generate(rng, tier):
         base, a, b = rng.choice([("- * x x c 0x1p+1", 0.0, 3.0), ("- x c 0x1p+0", -1.0, 3.0), ("- exp x c 0x1p+2", 0.5, 30.0)])
         b = b * rng.uniform(0.7, 1.3)
         cs.append(Case(line("root", a, b, 10 ** rng.uniform(-12, -3), "scaled", [K], f"* {C(K)} {base}"), ("root", "scaled")))
+    # ... the same scales with equal signs at the ends (two roots inside, or none): the product of the end values underflows to 0 or overflows,
+    # the request must still be rejected
+    for _ in range(60 if big else 12):
+        K = rng.choice([-1, 1]) * 10 ** rng.choice([-300, -200, -170, -160, -150, 150, 160, 200, 300])
+        base, a, b = rng.choice([("* - x c 0x1p+0 - x c 0x1p+1", 0.0, 3.0), ("+ c 0x1p-1 * x x", -1.0, 2.0), ("- exp neg * x x c 0x1p-1", -3.0, 3.0)])
+        if rng.random() < 0.5: a, b = b, a
+        cs.append(Case(line("root", a, b, 10 ** rng.uniform(-12, -3), "bad", [], f"* {C(K)} {base}"), ("root", "no-sign-change", "scaled")))
+    # huge or tiny odd functions on a bracket symmetric about the root: the midpoint is the root itself (f3 == 0) while f1*f2 and f3*f3 are out of range
+    for _ in range(40 if big else 10):
+        K = 10 ** rng.choice([-250, -160, 100, 160, 250]); a = 10 ** rng.uniform(-2, 2)
+        z = rng.choice([0.0, 0.0, float(rng.randint(-3, 3))]); X = "x" if z == 0.0 else f"- x {C(z)}"
+        g = rng.choice([f"* {X} * {X} {X}", X, f"- exp {X} exp neg {X}"])
+        if g.startswith("- exp"): a = min(a, 50.0)
+        fx = f"* {C(K)} {g}"
+        lo_, hi_ = z - a, z + a
+        if 0.5 * (lo_ + hi_) != z: continue
+        cs.append(Case(line(rng.choice(["root", "both"]), lo_, hi_, 10 ** rng.uniform(-10, -3), "sym", [z], fx), ("root", "scaled", "midpoint-root")))
+    # brackets whose width exceeds the largest double (finite ends of opposite sign), bounded functions
+    for _ in range(20 if big else 6):
+        a = -10 ** rng.uniform(307.5, 308.2); b = 10 ** rng.uniform(307.5, 308.2); r = rng.uniform(-1.4, 1.4)
+        if rng.random() < 0.5: a, b = b, a
+        cs.append(Case(line(rng.choice(["root", "both"]), a, b, 10 ** rng.uniform(-10, -4), "wide", [], f"- atan x {C(r)}"), ("root", "huge-bracket")))
     # an end that is an exact zero (product form vanishes exactly at the end)
     for _ in range(300 if big else 40):
         z = rng.choice([0.0, rng.uniform(-5, 5), 10 ** rng.uniform(-6, 6)]); o = z + rng.choice([-1, 1]) * 10 ** rng.uniform(-3, 3)
@@ -312,9 +334,9 @@ def predicates(c, io):
         if not exited: out.append((op + ":no-sign-change", f"f({lo!r}) = {fl!r} and f({hi!r}) = {fr!r} have equal signs but Find_Root returned ({io[:60]})"))
         return out
     # opposite signs at the ends: a number must come back
-    # products of function values that leave the double range: the guard f(xl)*f(xr) >= 0 and the radicand f3^2 - f1*f2 misfire
-    big = max(abs(fl), abs(fr)) * max(1.0, hi - lo)
-    under = "-range" if (abs(fl) * abs(fr) < 1e-290 or fl * fl < 1e-290 or fr * fr < 1e-290 or big > 1e150) else ""
+    # function values whose products would leave the double range are inside the property like any others (Find_Root compares signs and
+    # scales Ridder's step since the repair of K-C02-2); no region is exempt
+    under = ""
     if exited: return [(op + ":sign-change-exit" + under, f"f({lo!r}) = {fl!r} and f({hi!r}) = {fr!r} have opposite signs but Find_Root terminated the process")]
     calls = split_out(io, op)
     if not calls: return [(op + ":output", "unexpected output shape")]
